@@ -79,6 +79,7 @@ pub struct Clock {
     pub now: u64,
     pub idx: u64,
     pub resume_first: bool,
+    pub stall_pending: bool,
     pub print_spans: u64,
 }
 
@@ -89,6 +90,7 @@ impl Clock {
             now: 1_000_000, // arbitrary non-zero epoch
             idx: 0,
             resume_first: false,
+            stall_pending: false,
             print_spans: 0,
         }
     }
@@ -96,7 +98,8 @@ impl Clock {
     pub fn step_for_estimate(&mut self) {
         self.read();
     }
-    fn read(&mut self) -> (u64, u64, u64) {
+    /// returns (read index, delta, now, part of delta that is print-span time)
+    fn read(&mut self) -> (u64, u64, u64, u64) {
         let idx = self.idx;
         let mut d = self.profile.base(idx) + self.profile.creep;
         for &(j, extra) in &self.profile.jumps {
@@ -104,17 +107,22 @@ impl Clock {
                 d += extra;
             }
         }
-        if self.resume_first {
-            self.resume_first = false;
+        // time that passed while the sink was blocked inside a print span: it is
+        // observed by the first clock read after the span, wherever that read is
+        let mut stall = 0;
+        if self.stall_pending {
+            self.stall_pending = false;
             if let Some((span, extra)) = self.profile.print_stall {
                 if span + 1 == self.print_spans {
                     d += extra;
+                    stall = extra;
                 }
             }
         }
+        self.resume_first = false;
         self.now += d;
         self.idx += 1;
-        (idx, d, self.now)
+        (idx, d, self.now, stall)
     }
 }
 
@@ -271,7 +279,8 @@ impl Write for SimWriter {
 
 #[derive(Clone, Debug, PartialEq)]
 pub enum EvKind {
-    Clock { idx: u64, delta: u64, now: u64 },
+    /// `stall` = the part of delta that elapsed inside a print span (blocked sink)
+    Clock { idx: u64, delta: u64, now: u64, stall: u64 },
     Label(Label),
     InfRead(u64), // bits of the register value the following load observes
     Api(String),
@@ -291,8 +300,12 @@ pub struct Ev {
 impl Ev {
     pub fn render(&self) -> String {
         match &self.kind {
-            EvKind::Clock { idx, delta, now } => {
-                format!("t{} clock#{} +{}ns ={}", self.th, idx, delta, now)
+            EvKind::Clock { idx, delta, now, stall } => {
+                if *stall > 0 {
+                    format!("t{} clock#{} +{}ns ={} (print span {}ns)", self.th, idx, delta, now, stall)
+                } else {
+                    format!("t{} clock#{} +{}ns ={}", self.th, idx, delta, now)
+                }
             }
             EvKind::Label(l) => format!("t{} {:?}", self.th, l),
             EvKind::InfRead(b) => format!("t{} InfRead {:e}", self.th, f64::from_bits(*b)),
@@ -518,9 +531,9 @@ fn clock_hook() -> u64 {
     let th = my_id();
     let mut g = sim();
     let s = g.as_mut().expect("clock hook without sim");
-    let (idx, delta, now) = s.clocks[th].read();
+    let (idx, delta, now, stall) = s.clocks[th].read();
     s.total_sim_ns += delta;
-    s.push(th as u8, EvKind::Clock { idx, delta, now });
+    s.push(th as u8, EvKind::Clock { idx, delta, now, stall });
     now
 }
 
@@ -553,6 +566,7 @@ fn event_hook(ev: Label) {
         }
         Label::ResumeBegin => with_sim(|s| {
             s.clocks[th].resume_first = true;
+            s.clocks[th].stall_pending = true;
             s.clocks[th].print_spans += 1;
             s.push(th as u8, EvKind::Label(ev));
         }),
